@@ -19,6 +19,7 @@ import RedisVerif.Props.C16
     R2L <resp>        → `resp_to_lua_value`, rendered as a Lua value
     L2R <lua>         → `lua_to_resp`, rendered as a RESP value
     RT <resp>         → `lua_to_resp (resp_to_lua_value r)`
+    N2I <16 hex digits> → `lua_to_resp` of a Lua float with this bit pattern (`n as i64`): :<int>
     LA <lua>          → the bytes a redis.call argument becomes (`parse_multivalue_to_bytes`): $<hex> | refused
     TN                → the command names of `table`, sorted (compared with the match arms of the source)
     LT <i>            → row i of the translator's error alphabet `C16.luaErrTable` (name, arity text,
@@ -395,6 +396,11 @@ def step (line : String) : String :=
     let r := (showRes (parseCmd [s2b "ZZZ"])).replace " " "_"
     let l := (showAccept (parseLua [s2b "ZZZ"])).replace " " "_"
     s!"resp={r} lua={l}"
+  | ["N2I", t] =>
+    if t.length != 16 then "bad-op" else
+    match t.toList.mapM Driver.hexVal with
+    | some ds => s!":{f64ToI64 (ds.foldl (fun a d => a * 16 + d) 0)}"
+    | none => "bad-op"
   | ["TN"] =>
     let names := (table.map Entry.name).map strOf
     ",".intercalate (names.toArray.qsort (· < ·)).toList
